@@ -113,7 +113,19 @@ del scratch_name
 def static_func(a):
     return a
 '''
+PROJECT_FILES['vfp_alt/vfp_altmod.py'] = '''\
+ALT_CONST = 7
+
+
+def alt_func(x):
+    return x
+
+
+class AltThing(object):
+    alt_attr = 1
+'''
 DYN_MODULES = ['vfp_dyn', 'json']
+BAD_DYN = [5, True, {'$': 'float', 'v': 1.5}, [['vfp_dyn']], [{'k': 1}], [['vfp_dyn'], 'json']]
 
 IMPORTS = [
     ('import vfp_a', ['vfp_a']),
@@ -362,12 +374,48 @@ def through_module(rng, mod, counter):
     return {'m': 'lint', 'args': [src, fn], 'cat': 'valid', 'kind': 'valid:lint:through-module', 'token': 'vf_tok_%d' % counter[0]}
 
 
+def root_dependent(rng, counter):
+    """a request whose answer depends on the source roots of the session project"""
+    counter[0] += 1
+    mod, name = rng.choice([('vfp_altmod', 'alt_func'), ('vfp_altmod', 'AltThing'), ('vfp_a', 'Thing'), ('vfp_dyn', 'static_name')])
+    fn = path('main.py')
+    k = rng.randrange(4)
+    if k == 0:
+        src = 'import %s\n%s.' % (mod, mod)
+        return {'m': 'assist', 'args': [src, tup(2, len(mod) + 1), fn], 'cat': 'valid', 'kind': 'valid:assist:root-dependent'}
+    if k == 1:
+        src = 'from %s import %s\n%s' % (mod, name, name)
+        return {'m': 'location', 'args': [src, tup(2, 2), fn], 'cat': 'valid', 'kind': 'valid:location:root-dependent'}
+    if k == 2:
+        src = 'from %s import ' % mod
+        return {'m': 'assist', 'args': [src, tup(1, len(src)), fn], 'cat': 'valid', 'kind': 'valid:assist:root-dependent'}
+    src = 'from %s import *\nprint(%s, vf_tok_%d)\n' % (mod, name, counter[0])
+    return {'m': 'lint', 'args': [src, fn], 'cat': 'valid', 'kind': 'valid:lint:root-dependent', 'token': 'vf_tok_%d' % counter[0]}
+
+
+def failing_configure(rng, roots, current):
+    """a configure request that must fail; where the failure is in dyn_modules the sources are
+    valid and differ from the current ones"""
+    other = rng.choice([x for x in range(len(roots)) if x != current])
+    k = rng.randrange(6)
+    if k <= 3:
+        cfg = {'sources': roots[other], 'dyn_modules': rng.choice(BAD_DYN)}
+        tag = 'bad-dyn-modules'
+    elif k == 4:
+        cfg = {'dyn_modules': ['vfp_dyn'], 'source': roots[other]}
+        tag = 'missing-sources-key'
+    else:
+        cfg = rng.choice([5, None, [roots[other]], 'sources'])
+        tag = 'config-not-a-dict'
+    return {'m': 'configure', 'args': [cfg], 'cat': 'fault', 'kind': 'fault:failing-configure:' + tag, 'how': 'api', 'public': True}
+
+
 def reconfigure_history(rng, counter):
     """several configure requests on one connection - same roots with a different dyn_modules
     membership of M (added / removed), the same configuration re-sent, different roots -
     each followed by requests that go through M"""
     mod = rng.choice(DYN_MODULES)
-    roots = [[path('')], [path(''), path('vfp_pkg')], tup(path(''))]
+    roots = [[path('')], [path(''), path('vfp_pkg')], tup(path('')), [path('vfp_alt')], [path('vfp_alt'), path('')]]
 
     def cfg(r, dyn):
         c = {'sources': roots[r]}
@@ -376,7 +424,7 @@ def reconfigure_history(rng, counter):
         return {'m': 'configure', 'args': [c], 'cat': 'valid', 'kind': 'valid:configure'}
     with_m = lambda: rng.choice([[mod], [mod, 'vfp_a'] if mod != 'vfp_a' else [mod], DYN_MODULES[:]])
     without = lambda: rng.choice([None, [], ['vfp_a']])
-    r = rng.choice([0, 0, 1])
+    r = rng.choice([0, 0, 1, 3, 4])
     dyn = rng.random() < 0.5
     h = [cfg(r, with_m() if dyn else without())]
     steps = rng.randint(3, 6)
@@ -384,16 +432,26 @@ def reconfigure_history(rng, counter):
     for i in range(steps):
         for _ in range(rng.randint(1, 3)):
             c = rng.random()
-            h.append(through_module(rng, mod, counter) if c < 0.75 else gen_api_request(rng, counter) if c < 0.9 else rng.choice(FAULTS))
-        kind = rng.choice(['flip', 'flip', 'same', 'roots']) if flipped or i < steps - 1 else 'flip'
+            h.append(through_module(rng, mod, counter) if c < 0.6 else root_dependent(rng, counter) if c < 0.8 else
+                     gen_api_request(rng, counter) if c < 0.9 else rng.choice(FAULTS))
+        kind = rng.choice(['flip', 'flip', 'same', 'roots', 'fail', 'fail']) if flipped or i < steps - 1 else 'flip'
+        if kind == 'fail':
+            # a configure that raises changes nothing: what follows is answered by the project of
+            # the last successful configure
+            h.append(failing_configure(rng, roots, r))
+            h.append(root_dependent(rng, counter))
+            h.append(through_module(rng, mod, counter))
+            h.append(root_dependent(rng, counter))
+            continue
         if kind == 'flip':
             dyn = not dyn
             flipped = True
         elif kind == 'roots':
-            r = rng.choice([x for x in (0, 1, 2) if x != r])
+            r = rng.choice([x for x in range(len(roots)) if x != r])
         h.append(cfg(r, with_m() if dyn else without()))
     for _ in range(3):
         h.append(through_module(rng, mod, counter))
+    h.append(root_dependent(rng, counter))
     h += [echo_spec(counter), PID_SPEC]
     return h
 
@@ -458,9 +516,11 @@ def fault_specs():
     add('wrong-types:location:filename-list', 'location', [good_src, tup(1, 0), [1, 2]], public=True)
     add('wrong-types:eval:source-int', 'eval', [1], public=True)
     add('wrong-types:eval:source-none', 'eval', [None], public=True)
-    add('wrong-types:configure:int', 'configure', [1], public=True)
-    add('wrong-types:configure:empty-dict', 'configure', [{}], public=True)
-    add('wrong-types:configure:list', 'configure', [['sources']], public=True)
+    add('wrong-types:configure:int', 'configure', [1], public=True, how='api')
+    add('wrong-types:configure:empty-dict', 'configure', [{}], public=True, how='api')
+    add('wrong-types:configure:list', 'configure', [['sources']], public=True, how='api')
+    add('wrong-types:configure:dyn-int', 'configure', [{'sources': [path('vfp_alt')], 'dyn_modules': 5}], public=True, how='api')
+    add('wrong-types:configure:dyn-nested-list', 'configure', [{'sources': [path('vfp_alt'), path('')], 'dyn_modules': [['vfp_dyn']]}], public=True, how='api')
     # eval raising Exception subclasses
     raising = [
         ('Exception', "raise Exception('plain')"), ('Exception-empty', 'raise Exception()'),
@@ -556,6 +616,8 @@ class Runner(object):
         self.Ext = None
         self.hist_reconf = set()
         self.hist_cfg_seen = 0
+        self.failed_configure = False
+        self.hist_failed_cfg = False
         self.config = None       # last well-formed configuration sent (resolved)
         self.reconf = None       # how it relates to the one before: same-config / same-roots-dyn-change / different-roots
 
@@ -576,7 +638,10 @@ class Runner(object):
         framing); not raised when the in-process answer is known not to be a function of the request"""
         if content and self.tolerate:
             raise Tolerated(self.tolerate)
-        if content and self.reconf == 'same-roots-dyn-change':
+        if content and self.failed_configure:
+            mech = re.sub(r':after=failing-configure(:[\w-]+)?', '', mech) + ':after-failed-configure'
+            what += ' [a configure request failed since the last successful one: it must not have changed the session project]'
+        elif content and self.reconf == 'same-roots-dyn-change':
             mech += ':reconfigured=same-roots-dyn-change'
             what += ' [project configured by a configure request naming the same roots as the one before with other dyn_modules]'
         self.p.violation(mech, what, self.case())
@@ -608,7 +673,10 @@ class Runner(object):
         err = None
         for attempt in range(4):
             # the project root is importable in both processes (dyn_modules are imported for real)
-            self.sess = ru.Session(logfile=self.logfile, env={'PYTHONPATH': os.pathsep.join(
+            if self.meta.get('no_logfile'):
+                # the server logs to whatever stderr it is given
+                os.environ.pop('SUPP_LOG_FILE', None)
+            self.sess = ru.Session(logfile=None if self.meta.get('no_logfile') else self.logfile, env={'PYTHONPATH': os.pathsep.join(
                 [os.environ.get('PYTHONPATH', core.REPO + os.pathsep + core.VERIF), self.root])})
             try:
                 self.sess.env.run()
@@ -647,6 +715,31 @@ class Runner(object):
         finally:
             if self.base:
                 shutil.rmtree(self.base, ignore_errors=True)
+
+    def end_with_close(self):
+        """after a long session: close() has to end the server (it is the server that must still be
+        listening; what close() does on the client side is C16's business)"""
+        import time
+        env, proc = self.sess.env, self.sess.env.proc
+        try:
+            env.close()
+        except Exception as e:
+            self.p.count('close_raised_on_this_tree:%s' % type(e).__name__)
+            return
+        t = time.time()
+        while proc.poll() is None and time.time() - t < 30:
+            time.sleep(0.05)
+        if proc.poll() is not None:
+            self.p.count('servers_ended_by_close')
+            self.p.hist('exit_code_after_close', proc.poll())
+            return
+        info = ru.blocked_state(proc)
+        if info.get('blocked_on_pipe_write'):
+            self.p.violation('close-ignored:server-blocked-writing-undrained-stdio-pipe',
+                             'server pid %s still alive 30 s after close(): state %s, wchan %s, stdout=%s stderr=%s' % (
+                                 proc.pid, info.get('state'), info.get('wchan'), info.get('fd1'), info.get('fd2')), self.case())
+            raise Stop('close')
+        self.p.inconclusive.append('server still alive 30 s after close() (kernel state %s)' % json.dumps(info))
 
     def read_server_log(self):
         """what the server itself wrote down (SUPP_LOG_FILE): evidence only, no verdict"""
@@ -700,6 +793,7 @@ class Runner(object):
         ck = coarse(kind)
         if kind == 'valid:configure':
             self.note_configure(args[0])
+            self.failed_configure = False
         p.count('requests')
         p.hist('request_kind', family(kind))
         # expected outcome
@@ -731,12 +825,24 @@ class Runner(object):
                 ru.canon(exp[1])
             except ru.Unserialisable:
                 exp = ('exc', 'Serialize error')
+        if name == 'configure' and exp[0] == 'exc':
+            self.failed_configure = True
+            self.hist_failed_cfg = True
+            p.count('failing_configure_steps')
         # the real thing
         try:
             obs = self.sess.call(name, args, kwargs, public=spec.get('public', True), watchdog=spec.get('watchdog', ru.WATCHDOG_S))
         except ru.Hung:
-            p.inconclusive.append('no reply within %d s to a %s request (server killed by the watchdog)' % (spec.get('watchdog', ru.WATCHDOG_S), ck))
             p.count('watchdog_fired')
+            info = self.sess.hang_info or {}
+            if info.get('blocked_on_pipe_write'):
+                # not slow: the kernel shows the server asleep inside a write to its own stdout/stderr pipe
+                # that nobody reads - this request (and every later one) will never be answered
+                self.violation('request-never-answered:server-blocked-writing-undrained-stdio-pipe',
+                               'no reply to a %s request (#%d of the session): server pid %s alive, state %s, wchan %s, stdout=%s stderr=%s' % (
+                                   ck, len(self.sent), self.pid, info.get('state'), info.get('wchan'), info.get('fd1'), info.get('fd2')))
+            p.inconclusive.append('no reply within %d s to a %s request (server killed by the watchdog; kernel state %s)' % (
+                spec.get('watchdog', ru.WATCHDOG_S), ck, json.dumps(info)))
             raise Stop('hung')
         sb, rb = self.sess.last_bytes
         if sb is not None:
@@ -828,10 +934,13 @@ class Runner(object):
         trace = []
         self.hist_reconf = set()
         self.hist_cfg_seen = 0
+        self.hist_failed_cfg = False
         for spec in specs:
             out = self.step(spec)
             if out[0] in ('ok', 'exc') and spec['kind'].endswith(':through-module') and self.reconf:
                 self.p.count('replies_through_M_compared_after:' + self.reconf)
+            if out[0] in ('ok', 'exc') and self.failed_configure and spec['m'] in ('lint', 'assist', 'location') and spec['cat'] != 'fault':
+                self.p.count('project_dependent_replies_compared_after_failed_configure')
             trace.append('%s -> %s' % (coarse(spec['kind']), out[0] if out[0] != 'exc' else 'Exception(%s)' % ru.describe(out[1], 60)))
             if out[0] == 'exc':
                 failed = True
@@ -843,6 +952,8 @@ class Runner(object):
             self.p.count('histories_with_reconfigure')
         if 'same-roots-dyn-change' in self.hist_reconf:
             self.p.count('histories_with_dyn_modules_change')
+        if self.hist_failed_cfg:
+            self.p.count('histories_with_failing_configure')
         self.p.case(key, nontrivial=failed and recovered)
         if failed and recovered and len(specs) <= 12:
             self.p.sample({'history': trace, 'server_pid': self.pid}, limit=1)
@@ -862,6 +973,8 @@ def run_session(part, histories, meta, files=None):
                                        for i in range(0, len(log), 2))
         if not ok:
             part.violation('log-not-paired', 'client call/return log is not strictly alternating', r.case())
+        if meta.get('end_with_close'):
+            r.end_with_close()
         part.count('sessions_completed')
     except Stop:
         part.count('sessions_stopped_early')
@@ -1031,6 +1144,30 @@ def payload_history(size, counter, big_lint=True):
     return h
 
 
+def long_failing_history(rng, counter, n, big):
+    """several hundred failing requests in one session, then normal ones"""
+    ordinary = [f for f in FAULTS if f['m'] != 'configure' and 'send-error' not in f['kind'] and 'big-message' not in f['kind']]
+    h = [configure_spec(), echo_spec(counter)]
+    for i in range(n):
+        counter[0] += 1
+        if big or rng.random() < 0.3:
+            k = rng.randint(1000, 2000)
+            h.append({'m': 'eval', 'args': ["raise ValueError('F%d:' + 'x' * %d)" % (counter[0], k)], 'cat': 'fault',
+                      'kind': 'fault:eval-raises:message-1-2k', 'how': 'api', 'public': True, 'watchdog': 30})
+        else:
+            f = dict(rng.choice(ordinary))
+            f['watchdog'] = 30
+            h.append(f)
+        if i % 50 == 49:
+            h.append(echo_spec(counter))
+    while True:
+        r = gen_api_request(rng, counter)
+        if r['m'] == 'lint':
+            break
+    h += [echo_spec(counter), r, gen_api_request(rng, counter), echo_spec(counter, rep('p', 300)), PID_SPEC]
+    return h
+
+
 def rng_free_fault(suffix):
     for f in FAULTS:
         if f['kind'] == 'fault:' + suffix:
@@ -1045,6 +1182,21 @@ def work(arg):
     quick = tier == 'quick'
     counter = [w * 1000000]
     rng = random.Random('%s:C15:work:%d' % (seed, w))
+
+    # (f) long sessions of failing requests: without a log file (the server logs every failure to the
+    #     stderr it was given) and, as control, with one; each ends with normal requests and close()
+    if arg.get('failing'):
+        n = arg['failing']
+        plan = [(True, True), (True, False), (False, True)] * (1 if quick else 2)
+        for j, (nolog, big) in enumerate(plan):
+            hs = [(('long-failing', seed, j, nolog, big), long_failing_history(rng, counter, n, big))]
+            isolated_session(part, hs, {'workload': 'long-failing-session', 'seed': seed, 'no_logfile': nolog, 'end_with_close': True})
+            part.count('long_failing_sessions')
+            part.count('long_failing_sessions_without_logfile' if nolog else 'long_failing_sessions_with_logfile')
+            part.count('failing_requests_in_long_sessions', n)
+            if part.violations:
+                break
+        return part.dump()
 
     # (s) slow requests: its own work item, so that the sleeping overlaps with everything else
     if arg.get('slow'):
@@ -1110,7 +1262,8 @@ def main(run):
     # 16 shares of the work + the slow-request item (first in the queue) on 8 worker processes:
     # never more than 8 servers at a time
     nw = 2 * NSERVERS
-    args = [{'seed': run.seed, 'tier': run.tier, 'worker': nw, 'workers': nw, 'slow': run.pick(SLOW_QUICK, SLOW_THOROUGH)}]
+    args = [{'seed': run.seed, 'tier': run.tier, 'worker': nw, 'workers': nw, 'slow': run.pick(SLOW_QUICK, SLOW_THOROUGH)},
+            {'seed': run.seed, 'tier': run.tier, 'worker': nw + 1, 'workers': nw, 'failing': run.pick(400, 1500)}]
     args += [{'seed': run.seed, 'tier': run.tier, 'worker': w, 'workers': nw,
               'bases': run.pick(2, 2), 'long': run.pick(2, 38), 'reconf': run.pick(3, 20)} for w in range(nw)]
     for a, r in core.pmap('vf.props.c15:work', args, nproc=NSERVERS, timeout=run.pick(1800, 6000)):
@@ -1132,7 +1285,8 @@ def main(run):
                  'liveness_checks', 'pairing_tokens_checked', 'mirror_evaluations', 'fault_kinds_x_indices',
                  'server_log:request_errors', 'server_log:send_errors', 'slow_requests_answered',
                  'histories_with_reconfigure', 'histories_with_dyn_modules_change',
-                 'replies_through_M_compared_after:same-roots-dyn-change'),
+                 'replies_through_M_compared_after:same-roots-dyn-change', 'histories_with_failing_configure',
+                 'project_dependent_replies_compared_after_failed_configure', 'long_failing_sessions_without_logfile'),
         assumptions=[
             'client and server run the same interpreter with the same PYTHONPATH/PYTHONHASHSEED; generated sources import only the '
             'temp project and stdlib modules that resolve identically in both processes (sys.path[0] differs: /repo/supp vs /verif)',
@@ -1145,6 +1299,9 @@ def main(run):
             'switches itself off once MultiName keeps the order it is given',
             'the temp project root is on PYTHONPATH of the server and on sys.path of the mirror process (modules named in dyn_modules are imported for real); '
             'the reference for every configure request is a new Project(sources, dyn_modules), whatever was configured before',
+            'a configure request that raises leaves the session project of the last successful configure in place (mirror rule)',
+            'a request that is never answered is reported only when the kernel shows the live server asleep in a write to its own '
+            'stdout/stderr pipe (/proc/<pid>/wchan, syscall, fd links); a watchdog firing without that evidence is inconclusive',
             'each session runs in a freshly forked harness process, so the mirror process has seen exactly the requests the server process has seen',
             'nesting depth of unserialisable probes >= 3000 (certain RecursionError in dumps at the default recursion limit); no depth between 100 and 3000 is used',
             'slow requests (server-side time.sleep of 0.5..16 s) are workload only: the verdict is reply == expected value and the pairing of the following replies',
